@@ -190,3 +190,95 @@ impl RngCore for BiasedRng {
         Ok(())
     }
 }
+
+/// A signer byte stream that makes the first `forced` attempts of `falcon::sign` fail the norm
+/// test and is honest (ChaCha) from then on. The first 72 bytes (salt and the unused 32-byte seed)
+/// are honest; then every SamplerZ iteration is handed `00 40 00*7 | 00 | 00*7` (base-sampler
+/// draw, sign byte, Bernoulli bytes): z0 = 6, sign = minus, accepted at once, i.e. exactly 17 bytes
+/// per call and every coordinate 6 below floor(mu) - far outside the norm bound. The last forced
+/// attempt is only forced for its first three quarters, so that a different byte consumption per
+/// call errs on the side of ending the forcing early (the rest of that attempt is then honest and
+/// it still fails); the accepted attempt never sees a forced byte.
+pub struct RestartRng {
+    pub inner: ChaCha12Rng,
+    pub forced_from: usize,
+    pub forced_to: usize,
+    pub consumed: usize,
+}
+
+impl RestartRng {
+    pub fn new(seed: u64, n: usize, forced: usize) -> Self {
+        let per_attempt = 2 * n * 17;
+        let len = if forced == 0 { 0 } else { (forced - 1) * per_attempt + per_attempt * 3 / 4 };
+        RestartRng { inner: chacha(seed), forced_from: 72, forced_to: 72 + len, consumed: 0 }
+    }
+    fn next_byte(&mut self) -> u8 {
+        let i = self.consumed;
+        self.consumed += 1;
+        let w = self.inner.next_u32();
+        if i >= self.forced_from && i < self.forced_to {
+            return if (i - self.forced_from) % 17 == 1 { 0x40 } else { 0 };
+        }
+        w as u8
+    }
+}
+
+impl RngCore for RestartRng {
+    fn next_u32(&mut self) -> u32 {
+        self.next_byte() as u32
+    }
+    fn next_u64(&mut self) -> u64 {
+        self.next_byte() as u64
+    }
+    fn fill_bytes(&mut self, dest: &mut [u8]) {
+        for d in dest.iter_mut() {
+            *d = self.next_byte();
+        }
+    }
+    fn try_fill_bytes(&mut self, dest: &mut [u8]) -> Result<(), rand::Error> {
+        self.fill_bytes(dest);
+        Ok(())
+    }
+}
+
+extern "C" {
+    fn sched_getaffinity(pid: i32, cpusetsize: usize, mask: *mut u8) -> i32;
+    fn sched_setaffinity(pid: i32, cpusetsize: usize, mask: *const u8) -> i32;
+}
+
+/// Run `f` on a fresh thread that may only use the first `cpus` of the CPUs this process is
+/// allowed to use (so that `std::thread::available_parallelism` reports `cpus` there) and whose
+/// stack has `stack` bytes. `None` when the affinity could not be set (not Linux-like, or fewer
+/// CPUs than asked for); the closure is not run then.
+pub fn on_restricted_thread<T: Send>(cpus: usize, stack: usize, f: impl FnOnce() -> T + Send) -> Option<T> {
+    std::thread::scope(|sc| {
+        std::thread::Builder::new()
+            .stack_size(stack)
+            .spawn_scoped(sc, move || {
+                let mut mask = [0u8; 128];
+                if unsafe { sched_getaffinity(0, mask.len(), mask.as_mut_ptr()) } != 0 {
+                    return None;
+                }
+                let mut kept = 0;
+                for bit in 0..mask.len() * 8 {
+                    if mask[bit / 8] >> (bit % 8) & 1 == 1 {
+                        if kept >= cpus {
+                            mask[bit / 8] &= !(1 << (bit % 8));
+                        } else {
+                            kept += 1;
+                        }
+                    }
+                }
+                if kept < cpus || unsafe { sched_setaffinity(0, mask.len(), mask.as_ptr()) } != 0 {
+                    return None;
+                }
+                if std::thread::available_parallelism().map(|p| p.get()).unwrap_or(0) != cpus {
+                    return None;
+                }
+                Some(f())
+            })
+            .ok()?
+            .join()
+            .ok()?
+    })
+}
